@@ -112,6 +112,7 @@ def main():
     tmod = strip_comments(read("src/tbc_header/mod.rs"))
     sc("tbc_client_header_length", tmod, "CLIENT_HEADER_LENGTH")
     sc("tbc_server_header_length", tmod, "SERVER_HEADER_LENGTH")
+    sc("wrath_client_header_length", wmod, "CLIENT_HEADER_LENGTH")
     sc("wrath_server_header_min_length", wmod, "SERVER_HEADER_MINIMUM_LENGTH")
     sc("wrath_server_header_max_length", wmod, "SERVER_HEADER_MAXIMUM_LENGTH")
     sc("wrath_key_length", winner, "KEY_LENGTH")
